@@ -103,6 +103,32 @@ def compose(db, ctx):
         f = db.one(nm, None)
         # parameters by type, not by name: the previous map is the shared Vec<usize>, the new one the mutable Vec<usize>
         R = param_roles(f, _EDIT_ROLES)
+        if nm == "add_replace" and "source_mapping" not in R and "target_mapping" in R:
+            # the helper receives a PRE-RESOLVED span of the original text instead of the previous map: then each bound of that span,
+            # at every call site, must itself be an element read from the previous map — a mapped start plus a length of the current
+            # text is right only while the previous map is the identity (first batch)
+            from ..db import deref_let, call_args as _ca, is_call as _ic, callee as _cal, path_ends as _pe
+            caller = db.one("resolve_edits", None)
+            Rc = param_roles(caller, _EDIT_ROLES)
+            if "source_mapping" not in Rc:
+                raise AnchorMissing("resolve_edits: the previous map parameter")
+            rpos = [i for i, p_ in enumerate(f.info.get("params") or []) if isinstance(p_, dict) and "ops::Range<usize>" in (p_.get("ty") or "")]
+            if not rpos:
+                raise AnchorMissing("add_replace: neither the previous map nor a pre-resolved Range<usize> parameter")
+            for c, _ in walk(caller.hir):
+                if _ic(c) and _pe(_cal(c) or "", "add_replace"):
+                    a = peel(deref_let(peel(_ca(c)[rpos[0]])))
+                    st = [y for y, _ in walk(a) if y.get("k") == "Struct" and "ops::Range" in (y.get("path") or "")]
+                    fl = {fld.get("name"): fld.get("e") for fld in (st[0].get("fields") or [])} if st else {}
+                    for bound in ("start", "end"):
+                        n += 1
+                        e = peel_casts(peel(deref_let(peel(fl.get(bound) or {}))))
+                        ok = isinstance(e, dict) and e.get("k") == "Index" and is_local(e["e"], Rc["source_mapping"])
+                        ctx.ob("add_replace|span.%s#%d" % (bound, n), ok,
+                               "resolve_edits hands add_replace the original span's %s as `%s` — %s" % (bound, render(fl.get(bound) or {}, x=True)[:80],
+                               "an element of the previous map" if ok else "NOT an element of the previous map (a mapped position plus a length of the current text "
+                               "is right only while the previous map is the identity: stacked rewrite batches get a non-monotone map)"), fn=caller, site=c.get("sp"))
+            continue
         if "source_mapping" not in R or "target_mapping" not in R:
             raise AnchorMissing("%s: (&Vec<usize>, &mut Vec<usize>) parameters" % nm)
         for c, ps in walk(f.hir):
